@@ -12,6 +12,8 @@ import (
 	"regexp"
 	"strings"
 
+	"verif/core"
+
 	"github.com/paulsonkoly/calc/builtin"
 	"github.com/paulsonkoly/calc/memory"
 	"github.com/paulsonkoly/calc/parser"
@@ -359,6 +361,9 @@ func (s *Session) Submit(src string, repl bool) []Outcome {
 		return []Outcome{{Kind: KPanic, Err: "session dead", Phase: "dead"}}
 	}
 	s.Activate()
+	if core.Journaling {
+		core.JournalOp(src)
+	}
 	nodes, perr, pmsg := Parse(src)
 	if pmsg != "" {
 		return []Outcome{{Kind: KPanic, Err: pmsg, Phase: "parse", Out: TakeOutput()}}
